@@ -107,6 +107,11 @@ func handleTURNPacket(req Request) error {
 			unknownAttributes,
 		)
 
+		// Only a request is answered (420); an indication is discarded (RFC 5389, 7.3.2).
+		if stunMsg.Type.Class != stun.ClassRequest {
+			return nil
+		}
+
 		return buildAndSend(req.Conn, req.SrcAddr, buildMsg(
 			stunMsg.TransactionID,
 			stun.NewType(stunMsg.Type.Method, stun.ClassErrorResponse),
